@@ -84,18 +84,33 @@ def render_generated(doc, lay, rnd):
                 return lead + out + trail
             if doc.get("wrap"):
                 mode = lay.get("rewrap")
-                for r in rows:
-                    if mode is None:
+                if mode is None:
+                    for r in rows:
                         lines.append(join(r[:1]))
                         rest = r[1:]
                         for i in range(0, len(rest), 5):
                             lines.append(join(rest[i:i + 5]))
-                    else:
+                elif mode in ("one", "all", "rand"):
+                    for r in rows:
                         i = 0
                         while i < len(r):
                             n = len(r) if mode == "all" else (1 if mode == "one" else rnd.randint(1, max(1, len(r))))
                             lines.append(join(r[i:i + n]))
                             i += n
+                else:
+                    # the token stream of the whole section is cut without regard to depth steps: k values per line
+                    # (k may exceed the number of curves), everything on one line, or random cuts
+                    flat = [t for r in rows for t in r]
+                    i = 0
+                    while i < len(flat):
+                        if mode == "stream_all":
+                            n = len(flat)
+                        elif mode == "stream_rand":
+                            n = rnd.randint(1, max(1, 2 * len(rows[0])))
+                        else:
+                            n = int(mode.split(":")[1])
+                        lines.append(join(flat[i:i + n]))
+                        i += n
             else:
                 for r in rows:
                     lines.append(join(r))
@@ -155,6 +170,13 @@ def transform_text(lines, tr, rnd, wrapped, ncurves):
         if i0 is not None and len(buf) % ncurves == 0 and '"' not in " ".join(buf):
             rows = [buf[k:k + ncurves] for k in range(0, len(buf), ncurves)]
             data = []
+            if str(tr["rewrap"]).startswith("stream"):
+                i = 0
+                while i < len(buf):
+                    n = len(buf) if tr["rewrap"] == "stream_all" else (rnd.randint(1, 2 * ncurves) if tr["rewrap"] == "stream_rand" else 2 * ncurves)
+                    data.append(" " + " ".join(buf[i:i + n]))
+                    i += n
+                rows = []
             for r in rows:
                 i = 0
                 while i < len(r):
@@ -246,7 +268,7 @@ class C09(Prop):
         if index % 3 == 0:
             sc["base"] = {"kind": "corpus", "file": files[(index // 3) % len(files)]}
             sc["tr"] = {"noise": noise, "edges": g.random() < 0.5, "resep": g.random() < 0.5,
-                        "rewrap": g.choice([None, "one", "all", "rand"])}
+                        "rewrap": g.choice([None, "one", "all", "rand", "stream_all", "stream_rand", "stream:2n"])}
         else:
             wrap = g.random() < 0.3
             textcol = g.random() < 0.15
@@ -261,7 +283,8 @@ class C09(Prop):
             dlm = g.choice([None, None, "SPACE", "TAB", "COMMA"])
             sc["base"] = {"kind": "doc", "doc": doc, "dlm": dlm}
             sc["tr"] = {"noise": noise, "repad": g.random() < 0.6, "redelim_pad": g.random() < 0.5,
-                        "rewrap": g.choice([None, "one", "all", "rand"]) if wrap else None,
+                        "rewrap": g.choice([None, "one", "all", "rand", "stream_all", "stream_rand", "stream:%d" % (2 * nc), "stream:%d" % (nc + 1),
+                                            "stream:%d" % g.randint(1, 3 * nc)]) if wrap else None,
                         "title_lead": g.choice([0, 0, 0]), "title_trail": g.choice([0, 0, 3])}
         sc["eol"] = g.choice(["\n", "\r\n"])
         sc["final_newline"] = g.random() < 0.6
